@@ -88,6 +88,17 @@ class SymCtx(BaseCtx):
             if isinstance(st, (_ast.FunctionDef, _ast.ClassDef)): continue
             todo = list(_ast.iter_child_nodes(st)) + todo
         if stmt is None: raise EngineError('loop %d of %s not found' % (ordinal, node._qual))
+        # the obligation names the locals of the loop: if the code's locals have been renamed the OBLIGATION is out of date
+        # (undecided), which must not be mistaken for a NameError of the code
+        assigned = {a.arg for a in node.args.args + node.args.kwonlyargs} | {n.id for n in _ast.walk(node) if isinstance(n, _ast.Name) and isinstance(n.ctx, _ast.Store)}
+        if node.args.vararg: assigned.add(node.args.vararg.arg)
+        if node.args.kwarg: assigned.add(node.args.kwarg.arg)
+        inner = {n.id for b in stmt.body for n in _ast.walk(b) if isinstance(n, _ast.Name) and isinstance(n.ctx, _ast.Store)}
+        loaded = {n.id for b in stmt.body for n in _ast.walk(b) if isinstance(n, _ast.Name) and isinstance(n.ctx, _ast.Load)}
+        missing = sorted(x for x in loaded if x in assigned and x not in local_vars and x not in inner)
+        if missing: raise EngineError('loop-step obligation for %s#%d does not provide the local(s) %s of the current code' % (node._qual, ordinal, missing))
+        stale = sorted(x for x in local_vars if x not in assigned and x != 'self')
+        if stale: raise EngineError('loop-step obligation for %s#%d names the local(s) %s which the current code does not have' % (node._qual, ordinal, stale))
         env = Env(f.__globals__, None, cls=enclosing_class(node))
         env.vars.update(local_vars); env.selfobj = local_vars.get('self')
         ys = []
@@ -95,8 +106,13 @@ class SymCtx(BaseCtx):
             for y in self.I.exec_block(stmt.body, env): ys.append(y)
         except (Break, Continue):
             pass
+        except NameError as e:
+            name = getattr(e, 'name', None) or (e.args[0] if e.args else None)
+            if name in assigned and name not in local_vars:
+                raise EngineError('loop-step obligation for %s#%d does not provide the local %r of the current code' % (node._qual, ordinal, name))
+            raise
         self.I.evaluated.add(node._qual + '#loop%d' % ordinal)
-        return ys, env.vars
+        return ys, _Locals(env.vars, node._qual, ordinal)
     def axiom_inverse(self, f, g, proved_by):
         """forall k..,x. g(k.., f(k.., x)) == x : the last argument is the data, the others are shared parameters"""
         assert f.arg_bits == g.arg_bits and f.out_bits == f.arg_bits[-1] and g.out_bits == f.arg_bits[-1]
@@ -111,6 +127,9 @@ class SymCtx(BaseCtx):
     def note(self, *a, **k): self.notes.append((a, k))
 
 import ast as _ast
+class _Locals(dict):
+    def __init__(self, d, qual, ordinal): dict.__init__(self, d); self._q = (qual, ordinal)
+    def __missing__(self, k): raise EngineError('loop-step obligation for %s#%d reads the local %r which the current code does not have' % (self._q + (k,)))
 _BIN = {'+': _ast.Add, '-': _ast.Sub, '*': _ast.Mult, '&': _ast.BitAnd, '|': _ast.BitOr, '^': _ast.BitXor, '<<': _ast.LShift,
         '>>': _ast.RShift, '//': _ast.FloorDiv, '%': _ast.Mod}
 _CMP = {'==': _ast.Eq, '!=': _ast.NotEq, '<': _ast.Lt, '<=': _ast.LtE, '>': _ast.Gt, '>=': _ast.GtE}
